@@ -46,7 +46,7 @@ def handle (args : List Val) : Option Val := do
     let w ← world? stat dyn
     let c ← call? call
     let m := runMoveCall w c
-    let ms : Val := .list [b2v (specC12 w c m), b2v (specC03Move w m)]
+    let ms : Val := .list [b2v (specC12 w c m), b2v (specC03Move w m), b2v w.WInv]
     let is : Val :=
       match out? stat impl with
       | some io => .list [b2v (specC12 w c io), b2v (specC03Move w io)]
